@@ -311,6 +311,11 @@ def g_case(c):
     return "(%s, %s, %s, %s)" % (g_ptab(c["pt"]), gz(c["now"]), gz(c["g"]), g_expr(c["tree"]))
 
 
+def g_case_dyn(c, ranges):
+    return "(%s, %s, %s, %s)" % (g_ptab(c["pt"]), gz(c["now"]),
+                                 glist(["(%s, %s, %s)" % (gz(a), gz(b), gz(g)) for a, b, g in ranges]), g_expr(c["tree"]))
+
+
 def g_var(code):
     k, n, p = code
     return ["(VInd %s)" % gz(n), "(VAlloc %s %s)" % (gz(n), gz(p)), "(VStart %s)" % gz(n), "(VEnd %s)" % gz(n)][k]
@@ -469,8 +474,9 @@ def canon_solution(d, s, vals):
     ns = []
     root = None
     for n in s["nodes"]:
-        if n[1] is None:
-            raise CanonError("node %d has no solution" % n[0])
+        if n[1] is None:       # a node removed by an optimisation pass is never populated
+            ns.append([n[0], [1]])
+            continue
         ns.append([n[0], [1] if n[1] == 1 else [2, as_int(n[4])]])
         root = n if root is None or n[0] > root[0] else root     # the root has the largest id (created last)
     return [0, 1 if py_sat(d, vals) else 0, as_int(s["objective"]), as_int(s["utility"]) if s["utility"] is not None else 0,
@@ -693,59 +699,86 @@ def run(ctx):
     # ---- monitors on the implementation's own placements (satisfying assignments only)
     ctx.rules.append("monitors: for every sampled assignment that satisfies the C++ model (z3, up to %d per tree) the placements "
                      "returned by the real populateResults are checked by the Gallina monitors capacity_okb (trees outside "
-                     "the F13 input signature), placements_exactb, structure_okb and utility = objective" % n_sat)
+                     "the F13 input signature), structure_okb, lt_okb (trees outside the F14 input signature) and utility = "
+                     "objective" % n_sat)
     run_monitors(ctx, mon, model_ok)
     mark("monitors")
+
+    # ---- the lowering as the Scheduler runs it: passes, range-based discretisation (checked, not modelled)
+    run_passes_stage(ctx, exe, quick, model_ok)
+    mark("passes_stage")
 
     # ---- known findings: replay the witnesses on the implementation
     replay_f13(ctx, exe)
     replay_f14(ctx, exe)
+    replay_f15(ctx, exe)
 
 
-def run_monitors(ctx, mon, model_ok):
+def run_monitors(ctx, mon, model_ok, prefix="S-strl-"):
     def asg_of(d, vals):
         return [[v[0], x] for v, x in zip(d["vars"], vals)]
+
+    def dtext(c, vals):
+        cfg = c.get("cfg")
+        if cfg:
+            return driver_text_cfg(c, [vals], cfg["ranges"], cfg["passes"], cfg["granularity"])
+        return driver_text(c, [vals])
 
     # utility = objective (no model needed)
     for c, d, vals, pls, exp in mon:
         if exp[2] != exp[3]:
-            ctx.violation("utility", {"stream": "monitor utility=objective", "case": c, "assignment": asg_of(d, vals),
-                                      "objective": exp[2], "utility": exp[3], "driver_input": driver_text(c, [vals]),
+            ctx.violation(prefix.replace("S-strl-", "").replace("-", "_") + "utility", {"stream": "monitor utility=objective", "case": c, "assignment": asg_of(d, vals),
+                                      "objective": exp[2], "utility": exp[3], "driver_input": dtext(c, vals),
                                       "what": "the utility reported by populateResults differs from the model objective"})
             break
 
-    def apply(name, subset, in_type, fn, render, fallback, what):
-        bad = None
-        if model_ok:
-            try:
-                bad = ctx.monitor_stream(name, HEADER, in_type, fn, [render(m) for m in subset])
-            except core.ModelEvalError as e:
-                ctx.broken.append({"kind": "monitor", "name": name, "detail": str(e)[-600:]})
-        if bad is None:     # the Coq model does not evaluate: the same check in Python
-            bad = [i for i, m in enumerate(subset) if fallback(m[0], m[3])]
-        for b in bad[:3]:
-            c, d, vals, pls, exp = subset[b]
-            ctx.violation("%s%d" % (name.split("-")[-1], b),
-                          {"stream": "monitor " + name, "case": c, "assignment": asg_of(d, vals), "placements": pls,
-                           "violation": fallback(c, pls), "driver_input": driver_text(c, [vals]), "what": what})
+    # one combined Gallina monitor per case (flags say which monitors apply to this input):
+    #   capacity_okb unless the input has the F13 signature, structure_okb always, lt_okb unless F14 signature
+    whats = {
+        "capacity": "a satisfying assignment of the C++ model reads back as placements that over-subscribe a partition "
+                    "[partition, time, usage, quantity]",
+        "structure": "a placement read back from a satisfying assignment is not the exact image of a Choose leaf (name, "
+                     "start, duration, amount, partitions), or two children of one Max are placed",
+        "lessthan": "a placement below the first child of a LessThan ends after a placement below its second child starts"}
 
-    apply("S-strl-capacity", [m for m in mon if not m[0]["f13"]], "ptab * expr * list placement",
-          "(fun x => capacity_okb (fst (fst x)) (snd (fst x)) (snd x))",
-          lambda m: "(%s, %s, %s)" % (g_ptab(m[0]["pt"]), g_expr(m[0]["tree"]), g_placements(m[3])),
-          py_capacity_violation,
-          "a satisfying assignment of the C++ model reads back as placements that over-subscribe a partition "
-          "[partition, time, usage, quantity]")
-    apply("S-strl-structure", mon, "ptab * Z * expr * list placement",
-          "(fun x => structure_okb (fst (fst (fst x))) (snd (fst (fst x))) (snd (fst x)) (snd x))",
-          lambda m: "(%s, %s, %s, %s)" % (g_ptab(m[0]["pt"]), gz(m[0]["now"]), g_expr(m[0]["tree"]), g_placements(m[3])),
-          py_structure_violation,
-          "a placement read back from a satisfying assignment is not the exact image of a Choose leaf (name, start, "
-          "duration, amount, partitions), or two children of one Max are placed")
-    apply("S-strl-lessthan", [m for m in mon if not m[0]["f14"]], "expr * list placement",
-          "(fun x => lt_okb (fst x) (snd x))",
-          lambda m: "(%s, %s)" % (g_expr(m[0]["tree"]), g_placements(m[3])),
-          py_lt_violation,
-          "a placement below the first child of a LessThan ends after a placement below its second child starts")
+    def py_checks(m):
+        c, pls = m[0], m[3]
+        out = []
+        if not c["f13"]:
+            out.append(("capacity", py_capacity_violation(c, pls)))
+        out.append(("structure", py_structure_violation(c, pls)))
+        if not c["f14"]:
+            out.append(("lessthan", py_lt_violation(c, pls)))
+        return [(k, v) for k, v in out if v]
+
+    name = prefix + "monitors"
+    bad = None
+    if model_ok:
+        try:
+            texts = ["(%s, %s, %s, %s, %s, %s)" % (gbool(not m[0]["f13"]), gbool(not m[0]["f14"]), g_ptab(m[0]["pt"]),
+                                                   gz(m[0]["now"]), g_expr(m[0]["tree"]), g_placements(m[3])) for m in mon]
+            bad = ctx.monitor_stream(
+                name, HEADER, "bool * bool * ptab * Z * expr * list placement",
+                "(fun x => match x with (fc, fl, pt, now, e, pls) => andb (andb (orb (negb fc) (capacity_okb pt e pls)) "
+                "(structure_okb pt now e pls)) (orb (negb fl) (lt_okb e pls)) end)", texts)
+        except core.ModelEvalError as e:
+            ctx.broken.append({"kind": "monitor", "name": name, "detail": str(e)[-600:]})
+    if bad is None:     # the Coq model does not evaluate: the same checks in Python
+        bad = [i for i, m in enumerate(mon) if py_checks(m)]
+    st = ctx.cov["streams"].setdefault(name + ":monitor", {"cases": len(mon), "failing": len(bad)})
+    st["capacity_applied"] = sum(1 for m in mon if not m[0]["f13"])
+    st["lessthan_applied"] = sum(1 for m in mon if not m[0]["f14"])
+    seen_kinds = {}
+    for b in bad:
+        c, d, vals, pls, exp = mon[b]
+        found = py_checks(mon[b]) or [("monitor", "the Gallina monitor fails; the Python rendering of it does not")]
+        kind = found[0][0]
+        seen_kinds[kind] = seen_kinds.get(kind, 0) + 1
+        if seen_kinds[kind] > 3:
+            continue
+        ctx.violation("%s%s%d" % (prefix.replace("S-strl-", "").replace("-", "_"), kind, b),
+                      {"stream": "monitor " + name, "case": c, "assignment": asg_of(d, vals), "placements": pls,
+                       "violation": found[0][1], "driver_input": dtext(c, vals), "what": whats.get(kind, kind)})
 
 
 def replay_f13(ctx, exe):
@@ -810,3 +843,492 @@ def replay_f14_one(ctx, exe, c, assignment, fid, text):
         ctx.known(fid, "%s has a solution of utility %d whose read-back places %s (first child, ends %d) after %s "
                        "(second child, starts %d)" % (text, exp[3], "e%d" % v["first"][0], v["first"][2],
                                                       "e%d" % v["second"][0], v["second"][1]))
+
+
+# =========================================================================== passes / range-based discretisation
+# Stage S-strl-passes: the lowering as Scheduler::registerSTRL runs it (optimisation passes around parse, static or
+# range-based capacity map) is NOT modelled in Coq.  It is checked, not proved:
+#   * every solution of the compiled model (all of them for tiny models, enumerated with z3) is read back through the
+#     real populateResults and judged by the model-independent Gallina monitors (capacity at every time, exact
+#     amount/duration per placement, Max / LessThan structure, utility = objective);
+#   * unit discretisation + purge: every solution also satisfies the rows the pass deactivated (same feasible set);
+#   * optimum(model) == brute-force optimum of the expression under unit discretisation, unchanged by the pruning
+#     passes; <= brute force under coarser / range-based discretisation, where purge may only raise it.
+def f15_signature(case):
+    """INPUT predicate of finding F15: some LessThan lowered through solver variables cannot hold even when nothing is
+    satisfied (its happens-before row is unconditional), so the whole model is infeasible."""
+    bad = [False]
+
+    def go(t):
+        """(hi_start, lo_end) reachable with every indicator 0; None for a node without utility."""
+        k = t[0]
+        me = kinds(case, t)
+        if k == "C":
+            return None if me is None else (t[4], t[4] + t[5])
+        if k == "A":
+            return (t[3], t[3] + t[4])
+        if k == "MAX":
+            ks = [kinds(case, c) for c in t[2]]
+            st = [c[4] for c, kc in zip(t[2], ks) if kc is not None]
+            return (min(st), 0) if st else None
+        if k == "MIN":
+            rs = [go(c) for c in t[2]]
+            rs = [r for r in rs if r is not None]
+            if not rs:
+                return None
+            return (min(r[0] for r in rs), max(r[1] for r in rs))
+        if k == "LT":
+            x, y = go(t[2]), go(t[3])
+            if me is None or x is None or y is None:
+                return None
+            if me[2] == "v" and x[1] > y[0]:
+                bad[0] = True
+            return (x[0], y[1])
+        if k == "SC":
+            return go(t[4])
+        for c in t[2]:
+            go(c)
+        return (0, 0)
+    go(case["tree"])
+    return bad[0]
+
+
+def alloc_options(case, c):
+    """all ways a Choose can draw its amount from its available partitions (share <= quantity)."""
+    avail = {p: q for p, q, a in case["pt"] if a}
+    ps = [p for p in c[2] if p in avail]
+
+    def rec(i, left):
+        if i == len(ps):
+            if left == 0:
+                yield []
+            return
+        for x in range(0, min(left, avail[ps[i]]) + 1):
+            for rest in rec(i + 1, left - x):
+                yield ([(ps[i], x)] if x else []) + rest
+    return list(rec(0, c[3]))
+
+
+def outcomes(case, t):
+    """Brute-force semantics of an expression: list of (state, utility, start, end, placements) with state in
+    'dead' (no utility, Expression::parse returned EXPRESSION_NO_UTILITY), 'unsat', 'sat'; placements are
+    (choose id, start, end, [(partition, amount)])."""
+    k = t[0]
+    me = kinds(case, t)
+    if k == "C":
+        if me is None:
+            return [("dead", 0, None, None, [])]
+        s, e = t[4], t[4] + t[5]
+        return [("unsat", 0, s, e, [])] + [("sat", t[6], s, e, [(t[1], s, e, al)]) for al in alloc_options(case, t)]
+    if k == "A":
+        return [("sat", 0, t[3], t[3] + t[4], [])]
+    if k == "MAX":
+        out = [("unsat", 0, None, None, [])]
+        for c in t[2]:
+            out += [o for o in outcomes(case, c) if o[0] == "sat"]
+        return out
+    if k == "SC":
+        res = []
+        for o in outcomes(case, t[4]):
+            if o[0] == "dead":
+                res.append(o)
+            else:
+                u = (t[2] * (1 if o[0] == "sat" else 0)) if t[3] else t[2] * o[1]
+                res.append((o[0], u, o[2], o[3], o[4]))
+        return res
+    if k in ("MIN", "OBJ", "LT"):
+        kids = t[2] if k != "LT" else [t[2], t[3]]
+        kos = [outcomes(case, c) for c in kids]
+        kk = [kinds(case, c) for c in kids]
+        if k != "OBJ" and (me is None or any(x is None for x in kk)):
+            return [("dead", 0, None, None, [])]
+        var_idx = [i for i, x in enumerate(kk) if x is not None and x[2] == "v"]
+        if k == "LT" and me[2] == "c":
+            var_idx = []                      # trivially satisfied LessThan: no indicator row, the children are independent
+        res = []
+        import itertools
+        for combo in itertools.product(*kos):
+            if k == "OBJ":
+                live = [o for o in combo if o[0] != "dead"]
+                res.append(("sat", sum(o[1] for o in live), None, None, [p for o in live for p in o[4]]))
+                continue
+            states = {combo[i][0] for i in var_idx}
+            if len(states) > 1:
+                continue                      # variable-indicator children: all or none
+            sat = (states == {"sat"}) or not var_idx
+            if k == "LT" and me[2] == "v" and sat:
+                if combo[0][3] is None or combo[1][2] is None or combo[0][3] > combo[1][2]:
+                    continue                  # both satisfied: the first must end before the second starts
+            util = sum(o[1] for o in combo) + (1 if (k == "MIN" and not var_idx) else 0)
+            if k == "MIN":
+                st = [o[2] for o in combo if o[2] is not None]
+                en = [o[3] for o in combo if o[3] is not None]
+                s, e = (min(st) if st else None), (max(en) if en else None)
+            else:
+                s, e = combo[0][2], combo[1][3]
+            res.append(("sat" if sat else "unsat", util, s, e, [p for o in combo for p in o[4]]))
+        return res
+    raise ValueError(k)
+
+
+def brute_optimum(case):
+    """max utility over all outcomes whose placements (plus Allocation leaves) respect every partition at every time."""
+    qty = {p: q for p, q, a in case["pt"]}
+    allocs = [l for l in leaves(case["tree"]) if l[0] == "A"]
+    best = None
+    for o in outcomes(case, case["tree"]):
+        times = sorted({p[1] for p in o[4]} | {a[3] for a in allocs})
+        ok = True
+        for tau in times:
+            use = {}
+            for (_, s, e, al) in o[4]:
+                if s <= tau < e:
+                    for p, x in al:
+                        use[p] = use.get(p, 0) + x
+            for a in allocs:
+                if a[3] <= tau < a[3] + a[4]:
+                    for p, x in a[2]:
+                        use[p] = use.get(p, 0) + x
+            if any(v > qty.get(p, 0) for p, v in use.items()):
+                ok = False
+                break
+        if ok and (best is None or o[1] > best):
+            best = o[1]
+    return best
+
+
+def z3_model(d):
+    from z3 import z3
+    xs = [z3.Int("x%d" % i) for i in range(len(d["vars"]))]
+    cons = []
+    for x, v in zip(xs, d["vars"]):
+        if v[1] == 2:
+            cons += [x >= 0, x <= 1]
+        else:
+            cons += [x >= max(v[2], 0), x <= (v[3] if v[3] is not None else 64)]
+    for r in d["rows"]:
+        if not r["active"]:
+            continue
+        lhs = z3.Sum([int(c) * xs[vi] for c, vi in r["terms"]]) if r["terms"] else z3.IntVal(0)
+        rhs = int(r["rhs"])
+        cons.append({0: lhs <= rhs, 1: lhs == rhs, 2: lhs >= rhs}[r["sense"]])
+    obj = z3.Sum([int(c) * xs[vi] for c, vi in d["obj"]["terms"] if vi >= 0] or [z3.IntVal(0)]) \
+        + sum(int(c) for c, vi in d["obj"]["terms"] if vi < 0)
+    return z3, xs, cons, obj
+
+
+def all_solutions(d, cap, seed):
+    """(solutions, exhaustive?): distinct on the indicator and allocation variables."""
+    z3, xs, cons, obj = z3_model(d)
+    s = z3.Solver()
+    s.set("random_seed", seed % 1000)
+    s.add(cons)
+    codes = [var_code(v[0]) for v in d["vars"]]
+    disc = [i for i, c in enumerate(codes) if c[0] in (0, 1)]
+    sols = []
+    while len(sols) < cap and s.check() == z3.sat:
+        m = s.model()
+        vals = [m.eval(x, model_completion=True).as_long() for x in xs]
+        sols.append(vals)
+        s.add(z3.Or([xs[i] != vals[i] for i in disc] or [z3.BoolVal(False)]))
+    return sols, len(sols) < cap
+
+
+def model_optimum(d):
+    z3, xs, cons, obj = z3_model(d)
+    o = z3.Optimize()
+    o.add(cons)
+    h = o.maximize(obj)
+    if o.check() != z3.sat:
+        return None
+    return o.upper(h).as_long()
+
+
+class PassGen(Gen):
+    """tiny fork/join trees on contended partitions."""
+
+    def case(self):
+        r = self.rng
+        self.nid = 0
+        npart = r.choice([1, 1, 2])
+        self.pids = r.sample([1, 2], npart)
+        pt = [[p, r.choice([1, 1, 2]), 1] for p in self.pids]
+        self.horizon = r.choice([6, 8])
+        self.budget = r.choice([3, 4, 5])       # Choose leaves
+        kids = []
+        while self.budget > 0:
+            kids.append(self.shape())
+        return {"pt": pt, "now": 0, "g": 1, "tree": ["OBJ", self.fresh(), kids], "kind": "passes"}
+
+    lo = 0
+
+    def pick_start(self):
+        r = self.rng
+        if self.lo >= self.horizon - 1:
+            return self.lo + r.randrange(0, 2)
+        return r.randrange(self.lo, self.horizon)
+
+    def leaf(self):
+        r = self.rng
+        self.budget -= 1
+        parts = r.sample(self.pids, r.choice([1, len(self.pids)]))
+        return ["C", self.fresh(), parts, r.choice([1, 1, 2]), self.pick_start(), r.choice([1, 2, 2, 3, 4]),
+                r.choice([1, 2, 3])]
+
+    def maxn(self):
+        r = self.rng
+        n = r.choice([1, 2, 2, 3])
+        base = self.leaf()
+        starts = sorted({self.pick_start() for _ in range(n)})
+        ks = []
+        for s in starts:     # one task offered at increasing start times (what the front-end emits)
+            ks.append(["C", self.fresh(), base[2], base[3], s, base[5], max(1, base[6] - len(ks))])
+        self.budget -= len(ks) - 1
+        return ["MAX", self.fresh(), ks]
+
+    def unit(self):
+        return self.leaf() if self.rng.random() < 0.55 else self.maxn()
+
+    def minn(self):
+        return ["MIN", self.fresh(), [self.unit() for _ in range(self.rng.choice([2, 2, 3]))]]
+
+    def lt(self, fx, fy):
+        """LessThan whose second child mostly starts after the first can end (otherwise the unconditional
+        happens-before row forces satisfaction or infeasibility: finding F15)"""
+        old = self.lo
+        x = fx()
+        if self.rng.random() < 0.8:
+            self.lo = max(old, min(leaf_span(l)[0] + leaf_span(l)[1] for l in leaves(x)))
+        y = fy()
+        self.lo = old
+        return ["LT", self.fresh(), x, y]
+
+    def shape(self):
+        x = self.rng.random()
+        if x < 0.20:
+            return self.unit()
+        if x < 0.40:
+            return self.lt(self.minn, self.unit)       # join
+        if x < 0.60:
+            return self.lt(self.unit, self.minn)       # fork
+        if x < 0.75:
+            return self.lt(self.unit, self.unit)
+        if x < 0.90:
+            return self.minn()
+        return ["MIN", self.fresh(), [self.lt(self.unit, self.unit), self.unit()]]
+
+
+def gen_ranges(rng, horizon):
+    """contiguous ranges from 0 whose lengths are multiples of their granularity, covering the horizon"""
+    rs = []
+    t = 0
+    while t < horizon + 1:
+        g = rng.choice([1, 2, 2, 3, 4])
+        n = rng.choice([1, 1, 2])
+        rs.append([t, t + g * n, g])
+        t += g * n
+    return rs
+
+
+def driver_text_cfg(c, assigns, ranges=None, passes=None, g=None):
+    txt = driver_text(dict(c, g=g if g is not None else c["g"]), assigns)
+    head, rest = txt.split("\n", 1)
+    extra = ""
+    if ranges:
+        extra += "RANGES %d %s\n" % (len(ranges), " ".join("%d %d %d" % tuple(r) for r in ranges))
+    if passes:
+        extra += "PASSES %d %d %d %d %d %d\n" % tuple(passes)
+    return head + "\n" + extra + rest
+
+
+def run_passes_stage(ctx, exe, quick, model_ok):
+    rng = ctx.rng
+    n_trees = 30 if quick else 600
+    cap = 24 if quick else 300
+    gen = PassGen(rng)
+    ctx.rules.append(
+        "S-strl-passes: %d tiny fork/join trees (<= 5 Choose leaves incl. Max-of-Choose at increasing start times, "
+        "LessThan(Min(..),B), LessThan(A,Min(..)), Min(LessThan(..),C); 1-2 partitions of quantity 1-2, all contended), each "
+        "lowered by the real code under 9 configurations: unit discretisation without passes, with capacity-purge, "
+        "critical-path, both; explicit time ranges (starts strictly inside ranges, usages crossing range ends) without and "
+        "with purge; discretisation-selection pass; coarser static granularity without and with purge. ALL solutions of each "
+        "model (<= %d, distinct on indicators+allocations) are read back and judged by the model-independent monitors; the "
+        "model optimum is compared with the brute-force optimum of the expression" % (n_trees, cap))
+    trees = [gen.case() for _ in range(n_trees)]
+    jobs = []       # (tree index, config name, ranges, passes, g)
+    for ti, c in enumerate(trees):
+        rs = gen_ranges(rng, max(leaf_span(l)[0] for l in leaves(c["tree"])) + 1)
+        gco = rng.choice([2, 3, 4])
+        c["ranges"] = rs
+        c["gco"] = gco
+        for name, ranges, passes, g in [
+                ("unit", None, None, 1), ("unit+purge", None, [0, 0, 1, 1, 5, 80], 1),
+                ("unit+cp", None, [1, 0, 0, 1, 5, 80], 1), ("unit+cp+purge", None, [1, 0, 1, 1, 5, 80], 1),
+                ("ranges", rs, None, 1), ("ranges+purge", rs, [0, 0, 1, 1, 5, 80], 1),
+                ("dd", None, [0, 1, 0, 1, rng.choice([2, 3, 5]), 80], 1),
+                ("coarse", None, None, gco), ("coarse+purge", None, [0, 0, 1, 1, 5, 80], gco)]:
+            jobs.append((ti, name, ranges, passes, g))
+    try:
+        dumps = run_driver(exe, "".join(driver_text_cfg(trees[ti], [], r, p, g) for ti, _, r, p, g in jobs), len(jobs))
+    except DriverError as e:
+        ctx.broken.append({"kind": "tie", "name": "strl-driver-passes", "detail": str(e)[-1500:]})
+        return
+    work = []
+    stats = {"configs": len(jobs), "cpp_errors": 0, "solutions": 0, "exhaustive_models": 0, "optimum_checks": 0,
+             "deactivated_rows": 0, "f13": 0, "f14": 0, "f15": 0}
+    for (ti, name, ranges, passes, g), d in zip(jobs, dumps):
+        if d["err"] is not None or not d["vars"] or d["obj"] is None:
+            stats["cpp_errors"] += d["err"] is not None
+            continue
+        try:
+            sols, exhaustive = all_solutions(d, cap, ctx.seed)
+        except CanonError as e:
+            ctx.broken.append({"kind": "tie", "name": "strl-passes-canon", "detail": str(e)[:400]})
+            continue
+        stats["exhaustive_models"] += exhaustive
+        stats["deactivated_rows"] += sum(1 for r in d["rows"] if not r["active"])
+        work.append((ti, name, ranges, passes, g, d, sols))
+    try:
+        outs = run_driver(exe, "".join(driver_text_cfg(trees[ti], sols, r, p, g) for ti, _, r, p, g, _, sols in work), len(work))
+    except DriverError as e:
+        ctx.broken.append({"kind": "tie", "name": "strl-driver-passes2", "detail": str(e)[-1500:]})
+        return
+    # ---- the range-based registration IS modelled (compile_dyn): row-by-row comparison
+    dyn_cases = []
+    for (ti, name, ranges, passes, g), d in zip(jobs, dumps):
+        if name == "ranges":
+            try:
+                dyn_cases.append((g_case_dyn(trees[ti], ranges), canon_model(d), {"case": trees[ti], "ranges": ranges}))
+            except CanonError as e:
+                ctx.broken.append({"kind": "tie", "name": "strl-ranges-canon", "detail": str(e)[:400]})
+    extra_gen = Gen(rng)
+    extra = []
+    for _ in range(60 if quick else 600):
+        c = extra_gen.case("free" if rng.random() < 0.9 else "error")
+        ls = leaves(c["tree"])
+        hz = (max(leaf_span(l)[0] for l in ls) + 1) if ls else 4
+        c["ranges"] = gen_ranges(rng, hz if rng.random() < 0.85 else max(1, hz - 3))
+        extra.append(c)
+    try:
+        edumps = run_driver(exe, "".join(driver_text_cfg(c, [], c["ranges"], None, 1) for c in extra), len(extra))
+        for c, d in zip(extra, edumps):
+            dyn_cases.append((g_case_dyn(c, c["ranges"]), canon_model(d), {"case": c, "ranges": c["ranges"]}))
+    except (DriverError, CanonError) as e:
+        ctx.broken.append({"kind": "tie", "name": "strl-ranges-extra", "detail": str(e)[-600:]})
+    if model_ok and dyn_cases:
+        try:
+            mism = ctx.model_stream("S-strl-compile-ranges", HEADER, "ptab * Z * ranges * expr", "obs_compile_dyn", dyn_cases)
+            for idx, mv in mism[:3]:
+                info = dyn_cases[idx][2]
+                ctx.violation("ranges%d" % idx, {"stream": "S-strl-compile-ranges", "case": info["case"], "ranges": info["ranges"],
+                                                  "implementation": dyn_cases[idx][1], "model": mv,
+                                                  "driver_input": driver_text_cfg(info["case"], [], info["ranges"], None, 1),
+                                                  "what": "the model built by the C++ lowering under range-based discretisation "
+                                                          "differs from `compile_dyn`"})
+        except core.ModelEvalError as e:
+            ctx.broken.append({"kind": "correspondence", "name": "S-strl-compile-ranges", "detail": str(e)[-800:]})
+
+    # how many of the generated range inputs satisfy the hypothesis of theorem C20_capacity_ranges
+    if model_ok:
+        try:
+            hyp = [g_case_dyn(trees[ti], ranges) for (ti, name, ranges, passes, g) in jobs if name == "ranges"]
+            nohyp = ctx.monitor_stream("S-strl-ranges-hypothesis", HEADER, "ptab * Z * ranges * expr",
+                                       "(fun x => match x with (pt, now, rs, e) => coveringb (dyn_slots rs) (grid_key rs) e end)", hyp)
+            stats["ranges_inputs"] = len(hyp)
+            stats["ranges_inputs_satisfying_covering_hypothesis"] = len(hyp) - len(nohyp)
+        except core.ModelEvalError as e:
+            ctx.broken.append({"kind": "monitor", "name": "coveringb", "detail": str(e)[-600:]})
+
+    mon = []
+    opt = {}
+    purge_seen = set()
+    n_opt_viol = 0
+    for (ti, name, ranges, passes, g, d, sols), o in zip(work, outs):
+        c = dict(trees[ti], g=g)
+        c["f13"] = (ranges is None and name != "dd" and f13_signature(c))
+        c["f14"] = flt_signature(c)
+        c["cfg"] = {"name": name, "ranges": ranges, "passes": passes, "granularity": g}
+        for vals, s in zip(sols, o["sols"]):
+            try:
+                exp = canon_solution(d, s, vals)
+            except CanonError as e:
+                ctx.broken.append({"kind": "tie", "name": "strl-passes-readback", "detail": str(e)[:400]})
+                continue
+            stats["solutions"] += 1
+            mon.append((c, d, vals, exp[6], exp))
+            # purge: the deactivated rows must be implied (same feasible set)
+            for r in d["rows"]:
+                if name.startswith("unit") and not r["active"] and (ti, name) not in purge_seen and len(purge_seen) < 3:
+                    lhs = sum(cf * vals[vi] for cf, vi in r["terms"])
+                    if not {0: lhs <= r["rhs"], 1: lhs == r["rhs"], 2: lhs >= r["rhs"]}[r["sense"]]:
+                        purge_seen.add((ti, name))
+                        ctx.violation("purge%d_%s" % (ti, name.replace("+", "_")),
+                                      {"stream": "S-strl-passes purge", "case": c, "row": r["name"],
+                                       "assignment": [[v[0], x] for v, x in zip(d["vars"], vals)], "placements": exp[6],
+                                       "driver_input": driver_text_cfg(c, [vals], ranges, passes, g),
+                                       "what": "a solution of the model after the capacity-purge pass violates a capacity row the "
+                                               "pass deactivated: the pass changed the feasible set"})
+                        break
+        opt[(ti, name)] = model_optimum(d)
+    ctx.cov["input_distribution"]["passes_stage"] = stats
+    if mon:
+        ctx.sample({"stream": "S-strl-passes", "case": mon[0][0], "placements": mon[0][3]})
+    run_monitors(ctx, mon, model_ok, prefix="S-strl-passes-")
+    # optimum relations
+    for ti, c in enumerate(trees):
+        if flt_signature(c):
+            stats["f14"] += 1
+            continue
+        if f15_signature(c):
+            stats["f15"] += 1
+            continue
+        base = opt.get((ti, "unit"))
+        if base is None and (ti, "unit") not in opt:
+            continue
+        brute = brute_optimum(c)
+        # unit discretisation is exact: the optimum equals the brute-force optimum and the pruning passes keep it.
+        # Coarser / range-based discretisation over-approximates usage: optimum <= brute force; there the purge pass may
+        # only remove over-approximation: optimum(no purge) <= optimum(purge) <= brute force.
+        rel = [("unit", "==", brute), ("unit+purge", "==", base), ("unit+cp", "==", base), ("unit+cp+purge", "==", base),
+               ("ranges", "<=", brute), ("ranges+purge", "<=", brute), ("ranges+purge", ">=", opt.get((ti, "ranges"))),
+               ("dd", "<=", brute), ("coarse+purge", ">=", opt.get((ti, "coarse")))]
+        if not f13_signature(dict(c, g=c["gco"])):
+            rel += [("coarse", "<=", brute), ("coarse+purge", "<=", brute)]
+        for name, op, ref in rel:
+            if (ti, name) not in opt:
+                continue
+            v = opt[(ti, name)]
+            stats["optimum_checks"] += 1
+            ok = (v is not None and ref is not None and {"==": v == ref, "<=": v <= ref, ">=": v >= ref}[op]) or \
+                 (v is None and ref is None)
+            if not ok and n_opt_viol < 3:
+                n_opt_viol += 1
+                ctx.violation("optimum%d_%s" % (ti, name.replace("+", "_")),
+                              {"stream": "S-strl-passes optimum", "case": c, "configuration": name,
+                               "model_optimum": v, "relation": op, "reference": ref,
+                               "reference_is": "brute-force optimum of the expression" if op != ">=" and name in ("unit", "ranges", "ranges+purge", "dd", "coarse", "coarse+purge") else "optimum without the pass",
+                               "driver_input": driver_text_cfg(c, [], c["ranges"] if name.startswith("ranges") else None,
+                                                               None, c["gco"] if name.startswith("coarse") else 1),
+                               "what": "the optimum of the compiled model is not %s the reference" % op})
+
+
+F15_WITNESS = {"pt": [[1, 2, 1]], "now": 0, "g": 1, "kind": "witness",
+               "tree": ["OBJ", 6, [["LT", 4, ["C", 1, [1], 1, 0, 5, 1], ["MAX", 3, [["C", 2, [1], 1, 2, 1, 1]]]],
+                                   ["C", 5, [1], 1, 0, 1, 1]]]}
+
+
+def replay_f15(ctx, exe):
+    c = F15_WITNESS
+    try:
+        d = run_driver(exe, driver_text(c, []), 1)[0]
+        if d["err"] is not None:
+            return
+        sols, _ = all_solutions(d, 1, 1)
+        brute = brute_optimum(c)
+    except (DriverError, CanonError, KeyError, IndexError):
+        return
+    if not sols and brute is not None and f15_signature(c):
+        ctx.known("F15", "the happens-before row of a LessThan lowered through solver variables is unconditional "
+                         "(Expression.cpp:1915-1921): Objective[LessThan(A[0,5), Max[C[2,3)]), D[0,1)] compiles to a model with NO "
+                         "solution (e3_max_start_time <= 2 but >= 5 is required), although the expression has a valid schedule of "
+                         "utility %d (D alone)" % brute)
